@@ -6,6 +6,7 @@ open AbtemVerif AbtemVerif.Proto AbtemVerif.FiniteDiff
    coeffs <derivative> <accuracy>                         -> ok <c…> | err <kind>
    laplace <accuracy> <sx> <sy> <h> <w> <a row-major>     -> ok <out row-major> | err <kind>
    moments <accuracy>                                     -> ok <moment 0 … p+1>
+   series <a,y;a,y;…> <tol> <maxTerms>                    -> converged <i> | diverged <i> | not_converged   (convergence logic on eigen-modes)
    expseries <y> <terms>                                  -> ok <re> <im> of Σ_{i≤terms} (i·y)^i / i!   (scalar instance of the loop) -/
 
 structure Cx where
@@ -39,6 +40,18 @@ def handle : List String → String
       | .ok c => s!"ok {showList showRat ((List.range (acc.toNat + 2)).map (moment c))}"
       | .error e => s!"err {e}"
     | _ => "bad-op"
+  | ["series", modes, tol, mt] =>
+    match parseListList? parseRat? modes, parseRat? tol, parseNat? mt with
+    | some ms, some tol, some mt =>
+      match ms.mapM (fun l => match l with | [a, y] => some (a, y) | _ => none) with
+      | some ms =>
+        if ms.isEmpty ∨ mt = 0 ∨ (ms.map (·.1)).sum = 0 then "bad-op" else
+        match seriesOutcome ms tol mt with
+        | .converged i => s!"converged {i}"
+        | .diverged i => s!"diverged {i}"
+        | .notConverged => "not_converged"
+      | none => "bad-op"
+    | _, _, _ => "bad-op"
   | ["expseries", mu, terms] =>
     match parseRat? mu, parseNat? terms with
     | some mu, some terms =>
